@@ -66,6 +66,7 @@ type c12Fix struct {
 	tb, tj, pb, pj, hj, hrespb []byte
 	hrespMsg, hrespMsgTrunc    []byte // reply envelope around hrespb (and a truncated one)
 	excb                       []byte // response wrapper carrying the exception field
+	bigT, bigJ                 []byte // a message whose encodings exceed every pooled buffer's default size
 	tbTrunc, tjTrunc, pbTrunc  []byte
 	tjMissing                  []byte
 	paths                      [][]generic.Path
@@ -82,6 +83,7 @@ type c12Descs struct {
 	thconv *t2j.HTTPConv
 	xresp  *thrift.TypeDescriptor // response wrapper of X (field 0: HResp, field 1: Ex)
 	t2jExc *t2j.BinaryConv
+	big    *thrift.TypeDescriptor
 	// shared converter instances
 	t2j, t2jHTTP            *t2j.BinaryConv
 	j2t, j2tStrict, j2tHTTP *j2t.BinaryConv
@@ -113,6 +115,9 @@ func (f *c12Fix) parse() (*c12Descs, error) {
 	d.thconv = t2j.NewHTTPConv(meta.EncodingThriftBinary, fn)
 	if xfn, _ := hs.LookupFunctionByMethod("X"); xfn != nil {
 		d.xresp = xfn.Response()
+	}
+	if bs, err := thrift.NewDescritorFromContent(context.Background(), "big.thrift", "namespace go verif\nstruct Big { 1: list<i64> l, 2: string s }\nservice B { Big M(1: Big req) }\n", nil, false); err == nil {
+		d.big, _ = RootOf(bs, "M")
 	}
 	xc := t2j.NewBinaryConv(conv.Options{ConvertException: true})
 	d.t2jExc = &xc
@@ -395,6 +400,18 @@ func (f *c12Fix) ops() []c12Op {
 			out, err := pn.Marshal(o)
 			return resStr(out, err)
 		}},
+		{"j2t.Do-large", func(d *c12Descs) (string, []byte) {
+			if d.big == nil {
+				return "no-desc", nil
+			}
+			return resStr(d.j2t.Do(ctx, d.big, f.bigJ))
+		}},
+		{"t2j.Do-large", func(d *c12Descs) (string, []byte) {
+			if d.big == nil {
+				return "no-desc", nil
+			}
+			return resStr(d.t2j.Do(ctx, d.big, f.bigT))
+		}},
 		{"thrift.Value.Interface", func(d *c12Descs) (string, []byte) {
 			v, err := generic.NewValue(d.t, f.tb).Interface(gopts())
 			if err != nil {
@@ -568,6 +585,17 @@ func c12Fixture(cs *h.Case) *c12Fix {
 		tref.Field{ID: 1, V: tref.Str("exception message " + strings.Repeat("x", cs.R.Intn(200)))},
 		tref.Field{ID: 2, V: tref.Int32(int32(cs.R.Intn(1000)))},
 		tref.Field{ID: 3, V: tref.List(tref.STRING, tref.Str("d1"), tref.Str("d2"))})})))
+	{
+		l := &tref.Val{T: tref.LIST, ET: tref.I64}
+		for i := 0; i < 700+cs.R.Intn(600); i++ {
+			l.L = append(l.L, tref.Int64(int64(cs.R.Intn(1000))-500))
+		}
+		big := tref.Struct(tref.Field{ID: 1, V: l}, tref.Field{ID: 2, V: tref.Str(strings.Repeat("s", cs.R.Intn(3000)))})
+		bt := &gen.Type{T: tref.STRUCT, S: &gen.StructT{Name: "Big", Fields: []*gen.FieldT{
+			{ID: 1, Name: "l", T: &gen.Type{T: tref.LIST, Elem: &gen.Type{T: tref.I64}}}, {ID: 2, Name: "s", T: &gen.Type{T: tref.STRING}}}}}
+		f.bigT = f.trap(tref.Encode(big))
+		f.bigJ = f.trap([]byte(RenderJSON(cs.R, big, bt, JSpell{}, JOpts{})))
+	}
 	env := tref.WrapMessage("M", 2, 9, 0, tref.Encode(hresp))
 	f.hrespMsg = f.trap(env)
 	f.hrespMsgTrunc = f.trap(env[:len(env)-7])
